@@ -796,6 +796,8 @@ class Lower:
                 return '(cstring__size(%s) == 0)' % optr
             if name in ('push_back', 'reserve', 'clear'):
                 return 'cstring__%s(%s)' % (name, ', '.join([optr] + [self.ex(a) for a in args]))
+            if name == 'append' and len(args) == 2 and parse_type(qt(strip(args[0]))).kind == 'ptr':
+                return 'cstring__append(%s)' % ', '.join([optr] + [self.ex(a) for a in args])      # append(const char*, n)
             if name in ('begin', 'end'):
                 return 'cstring__%s(%s)' % (name, optr)
             raise LowerError("string::" + name)
@@ -1009,6 +1011,11 @@ class Lower:
         if rcls == 'opt':
             # optional<T> = optional<T>  (same instantiation only)
             if self.types.mangle(rtt) != self.types.mangle(t):
+                # optional<A> = optional<B> with scalar A, B (boost: engaged iff the source is; value converted as by static_cast)
+                ca, cb = self.types.classify(t.args[0])[0], self.types.classify(rtt.args[0])[0]
+                if ca in ('builtin', 'enum') and cb in ('builtin', 'enum') and r.get('valueCategory') == 'lvalue':
+                    re_ = self.ex(rhs)
+                    return '(%s ? (%s = (%s)%s, %s = 1) : (%s = 0))' % (self.member(re_, 'has'), val, self.types.ctype(t.args[0]), self.member(re_, 'val'), has, has)
                 raise LowerError("converting optional assignment")
             return '%s = %s' % (lhs, self.ex(rhs))
         e = self.ex(rhs)
@@ -1283,6 +1290,11 @@ class Lower:
         if self.cur_ret_ref:
             e = self.addr(e)
         self.flush_pre(out, ind)
+        if self.cur.ret == 'void':
+            # return f(); in a void function (C++ allows a void expression here)
+            out.append('%s%s;' % (ind, e))
+            out.append('%sreturn;' % ind)
+            return
         if self.has_call(ks[0]):
             t = self.tmp()
             out.append('%s{ %s %s = %s;' % (ind, self.cur.ret, t, e))
